@@ -49,6 +49,9 @@ CHECKS = {
  "C16": dict(technique="TLC model checking of OrderedReliableLink.tla (all drop/duplicate/reorder/retransmission interleavings) + TLC judge of the property predicates on every reachable state of the real link-wrapped ActorModel + transition conformance with the protocol spec",
              text="The link protocol is model-checked for scripted systems (prefix / acknowledged-implies-handed / completion invariants; the as-found variant is kept as a failing mutant); the real ActorModel<ActorWrapper<..>> is enumerated through the Model API within the same boundary and TLC evaluates the same predicates on every real reachable state and compares every real transition with the spec; state counts of spec and code agree.",
              note="2-3 actors, <=4 messages, network boundary <=5 envelopes; wrapped actors are scripted senders / recorders", ref="4/C16"),
+ "C19": dict(technique="TLA+ judge (Explorer.tla) of the answers of a real Explorer instance on loopback, of Path API round trips and of on-demand request sequences; TLC's own exploration of the same graphs as count oracle",
+             text="For generated graphs a real serve() instance is queried over HTTP for every execution up to depth 3 and for non-executions (404), its status endpoint before/after run-to-completion is decoded back to node paths and judged (counts, witness paths), Path::from_actions/encode/into_* are judged on all short action lists incl. disabled/ignored actions, and spawn_on_demand is driven by request sequences (requested pending states get evaluated, nothing unrequested is, completion equals BFS).",
+             note="HTTP via loopback sockets; fingerprints mapped to nodes through Path::encode; depth <=3", ref="4/C19"),
  "C11": dict(technique="TLA+ observation validation against Graph!EvCex (maximal-path semantics), exactness on generated forests",
              text="Reported eventually-counterexamples are judged by TLC against the existence of a maximal in-boundary path avoiding the condition (terminal or cycle in the non-sat region); on forest-shaped graphs the converse is judged too.",
              note="trusts TLC; forests are recognised by Graph!IsForest", ref="4/C11"),
